@@ -114,8 +114,6 @@ package vbft
 //@   ensures old(has(pool.candidateBlocks, blkNum)) ==> pool.candidateBlocks[blkNum] == old(pool.candidateBlocks[blkNum]) && pool.candidateBlocks[blkNum].CommitMsgs == old(pool.candidateBlocks[blkNum].CommitMsgs)
 //@   loop 1 invariant forall j int :: 0 <= j && j < it1 ==> !eSigs[j].ForEmpty
 //@   loop 2 invariant forall j int :: 0 <= j && j < it2 ==> eSigs[j].EndorsedProposer != eSig.EndorsedProposer
-//@   assert after "candidate.EndorseSigs[endorser] = append(eSigs, eSig)" : wfCand(candidate)
-//@   assert after "candidate.EndorseSigs[endorser] = []*CandidateEndorseSigInfo{eSig}" : wfCand(candidate)
 
 // Endorsement quorum: every participant (endorser index) counts at most once for the empty block and at most once
 // for a proposer (its list holds at most one such entry each), so no tally exceeds the number of participants
